@@ -438,11 +438,30 @@ def fp_trunc(x):
 # --------------------------------------------------------------------------
 # builtin / numpy shadows (fall through to the E1 shadows for S / SI, then to the builtin)
 # --------------------------------------------------------------------------
+def _publish_div_axioms():
+    """vf.sym replaces a quotient by a fresh symbol whose defining axiom is only added to the final
+    queries; a float->int conversion is followed by branching on the integer, so the axioms are made
+    visible to the path condition here (keeps infeasible paths from being explored)"""
+    c = sym.CTX
+    if c is None or not hasattr(sym, "div_axioms"):
+        return
+    seen = getattr(c, "_div_seen", None)
+    if seen is None:
+        seen = c._div_seen = set()
+    for ax in sym.div_axioms():
+        k = ax.get_id()
+        if k not in seen:
+            seen.add(k)
+            c.pc.append(ax)
+
+
 def fp_int(x, *a):
     if isinstance(x, SFI):
         return x
     if isinstance(x, SF):
         return fp_trunc(x)
+    if isinstance(x, S):
+        _publish_div_axioms()
     return _env.sym_int(x, *a)
 
 
@@ -524,6 +543,8 @@ def _np_elementwise(mode):
                     out[idx] = _to_integral(x[idx], mode)
                 return out
             return _to_integral(x, mode)
+        if _env._is_sym(x):
+            _publish_div_axioms()
         if _env._is_sym(x) and e1 is not None:
             if isinstance(x, np.ndarray):
                 out = np.empty(x.shape, dtype=object)
